@@ -91,6 +91,8 @@ type Frame struct {
 	Seed    uint32 `json:"seed"`
 	Dts     int64  `json:"dts_ns"`
 	Pts     int64  `json:"pts_ns"`
+	// Raw, when set, is the payload itself (in-band parameter sets of layer C-RTP)
+	Raw []byte `json:"raw,omitempty"`
 }
 
 // Join is one client: it joins just before the stream's tag number At is
@@ -122,15 +124,23 @@ type SynthPS struct {
 
 // Scenario is a whole case.
 type Scenario struct {
-	Layer  string   `json:"layer"`
-	Codec  string   `json:"codec"` // "H264" | "H265"
-	PS     int      `json:"param_set"`
-	Synth  *SynthPS `json:"synth,omitempty"` // when set, used instead of the capture PS
-	Audio  bool     `json:"audio"`
-	ASC    int      `json:"asc"`
-	Base   string   `json:"time_base_class"`
-	Frames []Frame  `json:"frames"`
-	Joins  []Join   `json:"joins"`
+	Layer string   `json:"layer"`
+	Codec string   `json:"codec"` // "H264" | "H265"
+	PS    int      `json:"param_set"`
+	Synth *SynthPS `json:"synth,omitempty"` // when set, used instead of the capture PS
+	Audio bool     `json:"audio"`
+	ASC   int      `json:"asc"`
+	// Late: the parameter sets known when the muxer / packetiser / stream is
+	// constructed are incomplete or wrong and are completed before the first
+	// frame is written, the way the RTP depacketisers do it from in-band units
+	// (rtp/h264_depacketizer.go writeFrame + metaStuck): "" (complete from the
+	// start), "no-pps" (SDP with SPS only, legal per RFC 6184 §8.2.1),
+	// "truncated-sps" (replaced in band), "sps-only" (H.265 sprop-sps without
+	// sprop-vps / sprop-pps), "nothing".
+	Late   string  `json:"late_param_sets,omitempty"`
+	Base   string  `json:"time_base_class"`
+	Frames []Frame `json:"frames"`
+	Joins  []Join  `json:"joins"`
 }
 
 func (s *Scenario) paramSet() paramSet {
@@ -210,6 +220,40 @@ func (s *Scenario) videoMeta() *codec.VideoMeta {
 		DataRate: 2500, ClockRate: 90000, Sps: p.SPS, Pps: p.PPS, Vps: p.VPS}
 }
 
+// partialMeta returns what is known at construction time under s.Late (the
+// same *VideoMeta is completed later by complete, as the depacketiser mutates
+// the stream's VideoMeta in place).
+func (s *Scenario) partialMeta() *codec.VideoMeta {
+	m := s.videoMeta()
+	if s.Late == "" {
+		return m
+	}
+	m.Width, m.Height, m.FrameRate, m.FixedFrameRate = 0, 0, 0, false
+	switch s.Late {
+	case "no-pps":
+		m.Pps = nil
+	case "truncated-sps":
+		m.Sps = append([]byte(nil), m.Sps[:len(m.Sps)/2]...)
+	case "sps-only":
+		m.Pps, m.Vps = nil, nil
+	case "nothing":
+		m.Sps, m.Pps, m.Vps = nil, nil, nil
+	default:
+		panic("unknown Late " + s.Late)
+	}
+	return m
+}
+
+// complete installs the stream's actual parameter sets (and what
+// h264/hevc.MetadataIsReady derives from them) into m.
+func (s *Scenario) complete(m *codec.VideoMeta) {
+	f := s.videoMeta()
+	m.Sps, m.Pps, m.Vps = f.Sps, f.Pps, f.Vps
+	m.Width, m.Height, m.FrameRate, m.FixedFrameRate = f.Width, f.Height, f.FrameRate, f.FixedFrameRate
+}
+
+var lateKinds = []string{"no-pps", "truncated-sps", "sps-only", "nothing"}
+
 func (s *Scenario) audioMeta() *codec.AudioMeta {
 	if !s.Audio {
 		return &codec.AudioMeta{}
@@ -221,6 +265,9 @@ func (s *Scenario) audioMeta() *codec.AudioMeta {
 // payload builds the frame's bytes: NAL header per H.264 §7.3.1 / H.265
 // §7.3.1.2 (forbidden_zero_bit 0), then a xorshift fill.
 func (s *Scenario) payload(f Frame) []byte {
+	if f.Raw != nil {
+		return f.Raw
+	}
 	b := make([]byte, f.Size)
 	x := f.Seed*2654435761 + 0x9E3779B9
 	if x == 0 {
@@ -301,14 +348,20 @@ func drawSize(t *rapid.T, min int, label string) int {
 	}
 }
 
-func drawScenario(t *rapid.T, layer, codecName string, audio bool) *Scenario {
+// forceSynth: nil = draw whether the parameter sets are a repository capture or
+// a synthetic family; otherwise fixed (the property tests split on it to run
+// more subtests in parallel).
+func drawScenario(t *rapid.T, layer, codecName string, audio bool, forceSynth *bool) *Scenario {
 	s := &Scenario{Layer: layer, Codec: codecName, Audio: audio}
 	s.PS = rapid.IntRange(0, 7).Draw(t, "paramSet")
-	if rapid.IntRange(0, 2).Draw(t, "synthetic") == 0 {
+	if forceSynth == nil && rapid.IntRange(0, 2).Draw(t, "synthetic") == 0 || forceSynth != nil && *forceSynth {
 		s.Synth = drawSynth(t, codecName)
 	}
 	if audio {
 		s.ASC = rapid.IntRange(0, len(ascSets)-1).Draw(t, "asc")
+	}
+	if rapid.IntRange(0, 3).Draw(t, "lateParamSets") == 0 {
+		s.Late = rapid.SampledFrom(lateKinds).Draw(t, "lateKind")
 	}
 	// time base of the video clock, in ms
 	s.Base = rapid.SampledFrom([]string{"zero", "small", "small", "ext24", "b31", "b32", "b32", "b32exact", "multi"}).Draw(t, "base")
@@ -406,5 +459,5 @@ func (s *Scenario) summary() string {
 			}
 		}
 	}
-	return fmt.Sprintf("%s/%s ps=%s audio=%v base=%s video=%d(key %d) audio=%d joins=%v", s.Layer, s.Codec, s.paramSet().Name, s.Audio, s.Base, v, k, a, s.Joins)
+	return fmt.Sprintf("%s/%s ps=%s late=%q audio=%v base=%s video=%d(key %d) audio=%d joins=%v", s.Layer, s.Codec, s.paramSet().Name, s.Late, s.Audio, s.Base, v, k, a, s.Joins)
 }
